@@ -17,8 +17,8 @@ Obligations of this file (every `theorem` below is counted by `check`):
 * `paren_needed_partial`: a needed pair around an operand of the root cannot be dropped;
 * the same round trip through the lexer's `between` flag and the `( a . b . c` quirk of the
   tables: `parse_print_surface_partial` (+ two counterexamples, findings F19 and F22);
-* layout: `layout_gap_skipped_partial`, `layout_irrelevant_partial` (+ counterexample, F20);
-* `string_escape_roundtrip_partial` (+ `_counterexample`, `surrogate_escape_fails_iff`, F10).
+* layout: `layout_gap_skipped`, `layout_irrelevant` (any number of comments in a gap);
+* `string_escape_roundtrip` (all three spellings, every scalar value).
 -/
 
 namespace Dmn.C06
@@ -277,64 +277,38 @@ theorem parse_print_surface_counterexample_path :
 
 /-! ## Layout
 
-`skipGap` is what `Lexer::read_input` does before every token.  A `Gap` is white space with
-at most one comment in it (`// …` closed by a line feed, or `/* … */`).
+`skipGap` is what `Lexer::read_input` does before every token.  A `Gap` is any sequence of
+runs of white space and comments (`// …` closed by a line feed, or `/* … */`).
+(That two layouts of one token list lex to the same tokens needs, beyond this, the token
+recognisers of `read_next_token`; those are compared by the correspondence only — see
+finding F21 for a keyword directly followed by a comment.) -/
 
-FULL STATEMENT (not provable of the current code, finding F20): the same for any sequence
-of white space and comments — the implementation skips only one comment per token.  (That
-two layouts of one token list lex to the same tokens needs, beyond this, the token
-recognisers of `read_next_token`; those are compared by the correspondence only.) -/
-
-/-- Whatever admissible gap stands before it, the lexer resumes exactly at the next token. -/
-theorem layout_gap_skipped_partial (g : Gap) (rest : List Nat) (hg : g.ok = true)
-    (hr : startsToken rest = true) : skipGap (g.text ++ rest) = rest :=
+/-- Whatever gap stands before it, the lexer resumes exactly at the next token. -/
+theorem layout_gap_skipped (g : Gap) (rest : List Nat) (hg : gapOk g = true)
+    (hr : startsToken rest = true) : skipGap (gapText g ++ rest) = rest :=
   skipGap_gap g rest hg hr
 
-/-- Two admissible gaps are interchangeable. -/
-theorem layout_irrelevant_partial (g1 g2 : Gap) (rest : List Nat) (h1 : g1.ok = true) (h2 : g2.ok = true)
-    (hr : startsToken rest = true) : skipGap (g1.text ++ rest) = skipGap (g2.text ++ rest) := by
+/-- Any two gaps are interchangeable. -/
+theorem layout_irrelevant (g1 g2 : Gap) (rest : List Nat) (h1 : gapOk g1 = true) (h2 : gapOk g2 = true)
+    (hr : startsToken rest = true) : skipGap (gapText g1 ++ rest) = skipGap (gapText g2 ++ rest) := by
   rw [skipGap_gap g1 rest h1 hr, skipGap_gap g2 rest h2 hr]
 
--- ` /* c */\n` and `\t// x\n ` in front of `a`
-example : (Gap.mk [32] (some (.block [32, 99, 32])) [10]).ok = true ∧
-    (Gap.mk [9] (some (.line [32, 120])) [32]).ok = true ∧ startsToken [97] = true := by decide
-
-/-- F20: `/**/ /**/a` — the second comment is left for the token recogniser. -/
-theorem layout_irrelevant_counterexample :
-    skipGap [47, 42, 42, 47, 32, 47, 42, 42, 47, 97] = [47, 42, 42, 47, 97] := by decide
+-- ` /* c */\n/**/` and `\t// x\n // y\n ` in front of `a`
+example : gapOk [.ws [32], .comment (.block [32, 99, 32]), .ws [10], .comment (.block [])] = true ∧
+    gapOk [.ws [9], .comment (.line [32, 120]), .ws [32], .comment (.line [32, 121]), .ws [32]] = true ∧
+    startsToken [97] = true := by decide
 
 /-! ## String escapes -/
 
-/- FULL STATEMENT (not provable of the current code, finding F10):
-theorem string_escape_roundtrip (c : Nat) (h : isScalar c = true) :
-    (c < 65536 → lexU4 c = some c) ∧ lexU6 c = some c ∧ (65536 ≤ c → lexSur c = some c)
--/
-
 /-- For every Unicode scalar value `c`, each accepted spelling denotes `c`: `\uXXXX` (when
-`c` is in the basic plane), `\UXXXXXX`, and the surrogate pair (when `c` is supplementary)
-— the last one only when bit 6 of `c` is clear (`c % 128 < 64`); see the counterexample. -/
-theorem string_escape_roundtrip_partial (c : Nat) (h : isScalar c = true) :
-    (c < 65536 → lexU4 c = some c) ∧ lexU6 c = some c ∧
-    (65536 ≤ c → c % 128 < 64 → lexSur c = some c) := by
-  refine ⟨fun h4 => lexU4_scalar c h h4, lexU6_scalar c h, fun h1 hb => lexSur_good c h1 ?_ hb⟩
+`c` is in the basic plane), `\UXXXXXX`, and the UTF-16 surrogate pair (when `c` is
+supplementary). -/
+theorem string_escape_roundtrip (c : Nat) (h : isScalar c = true) :
+    (c < 65536 → lexU4 c = some c) ∧ lexU6 c = some c ∧ (65536 ≤ c → lexSur c = some c) := by
+  refine ⟨fun h4 => lexU4_scalar c h h4, lexU6_scalar c h, fun h1 => lexSur_scalar c h1 ?_⟩
   simp [isScalar] at h; omega
 
-example : isScalar 0x1F600 = true ∧ 65536 ≤ 0x1F600 ∧ 0x1F600 % 128 < 64 := by decide
-
-/-- `"🙏"` (U+1F64F, 🙏) is refused by the lexer. -/
-theorem string_escape_roundtrip_counterexample :
-    isScalar 0x1F64F = true ∧ 65536 ≤ 0x1F64F ∧ lexSur 0x1F64F = none := by
-  decide
-
-/-- The surrogate branch fails exactly on the excluded half of the supplementary planes. -/
-theorem surrogate_escape_fails_iff (c : Nat) (h1 : 65536 ≤ c) (h2 : c ≤ 1114111) :
-    lexSur c = none ↔ ¬ c % 128 < 64 := by
-  constructor
-  · intro hn hb
-    rw [lexSur_good c h1 h2 hb] at hn
-    cases hn
-  · exact lexSur_bad c h1 h2
-
-example : (65536 : Nat) ≤ 0x1F64F ∧ 0x1F64F ≤ 1114111 ∧ ¬ 0x1F64F % 128 < 64 := by decide
+-- 🙏 (U+1F64F), the code point the former mask 0xFF refused (finding F10, repaired)
+example : isScalar 0x1F64F = true ∧ 65536 ≤ 0x1F64F := by decide
 
 end Dmn.C06
